@@ -23,11 +23,11 @@ theorem remove_guard_known : Nsq.Gen.Life.removeGuard = guardFixed := by decide
 
 theorem tree_fixed : treeFixed = true := by decide
 
-/-- `Channel.Empty`: lock, reset both structures, the hook, every consumer's counter adjustment
-(`client.Empty()`: zero it — or, with fixes/F13_empty_vs_inflight_accounting.patch, `Discarded(n)`:
-subtract exactly what the reset dropped, `Empty()` only for foreign consumers), backend.Empty -/
+/-- `Channel.Empty`: lock, reset both structures, the hook, every consumer's counter adjustment (F13, /repo 2a83354,
+committed: `Discarded(n)` subtracts exactly what the reset dropped, `client.Empty()` only for foreign consumers),
+backend.Empty. The shape before F13 (`client.Empty()` zeroes every counter: no `Discarded` call) is no longer
+accepted (audit B12). -/
 theorem empty_calls :
-    Nsq.Gen.Life.emptyCalls = ["Lock", "initPQ", "verifPoint", "Empty", "Empty"] ∨
     Nsq.Gen.Life.emptyCalls = ["Lock", "initPQ", "verifPoint", "Discarded", "Empty", "Empty"] := by decide
 
 /-- `Channel.exit`: once-only flag, notify, close consumers, then Empty + backend.Delete (delete)
@@ -80,7 +80,7 @@ theorem push_shape_known :
 
 theorem tree_push_atomic : treePushAtomic = true := by decide
 
-/-! ### fixes/F27: REQ / TOUCH hold the channel's read lock (`St.ansLock`) -/
+/-! ### F27 (/repo ebb5df3, committed): REQ / TOUCH hold the channel's read lock (`St.ansLock`) -/
 
 def reqSeqF18 : List String :=
   ["call:c.exitMutex.RLock", "defer:RUnlock", "call:c.popInFlightMessage", "call:c.removeFromInFlightPQ", "call:c.put",
@@ -100,11 +100,14 @@ return) after `exitMutex.RLock` and before `popInFlightMessage` -/
 def treeAnsLock : Bool :=
   Nsq.Gen.Life.reqLockSeq == reqSeqF27 && Nsq.Gen.Life.touchLockSeq == touchSeqF27
 
-/-- exactly two shapes, consistently over both functions: the committed one (F18 only: `ansLock = false`, finding
-`empty-races-req-message-survives` open) or the proposal fixes/F27 (`ansLock = true`) -/
+/-- F27 is committed (/repo ebb5df3): ONLY its shape is accepted, consistently over both functions (`ansLock = true`;
+audit B12). The shape with F18 alone (`reqSeqF18`/`touchSeqF18`: `ansLock = false`, findings
+`empty-races-req-message-survives` / `empty-races-touch-message-survives`, listed `fixed`) breaks this tie, and the hook
+replays `empty_races_req_survives` / `empty_races_touch_survives` then report the surviving message as a VIOLATION. -/
 theorem answers_channel_lock_shape :
-    (Nsq.Gen.Life.reqLockSeq = reqSeqF18 ∧ Nsq.Gen.Life.touchLockSeq = touchSeqF18) ∨
-    (Nsq.Gen.Life.reqLockSeq = reqSeqF27 ∧ Nsq.Gen.Life.touchLockSeq = touchSeqF27) := by decide
+    Nsq.Gen.Life.reqLockSeq = reqSeqF27 ∧ Nsq.Gen.Life.touchLockSeq = touchSeqF27 := by decide
+
+theorem tree_ans_lock : treeAnsLock = true := by decide
 
 /-- `Channel.Empty` holds the channel's write lock (deferred unlock) over `initPQ` and everything after it: the model's
 three sections of Empty are one `c.Lock` critical section (`emptyRunning` ⇒ `reqPop`/`touchPop` disabled with `ansLock`) -/
